@@ -112,6 +112,33 @@ def make_cases(ctx, tzrows):
                 s_, ht, hs, flw = render(fam, dt, fl, rng)
                 cases.append({"kind": "c01", "fam": fam, "dt": dt, "ht": ht, "hs": hs, "fl": flw, "s": s_,
                               "kw": {"languages": ["en"]}, "settings": {"RELATIVE_BASE": [2021, 6, 15, 12, 0, 0, 0]}, "api": "ddp", "probe": True})
+    # ---- coincidences between the fields of ONE string: the fraction written with the same digits as the year (or the day
+    # and month, or the clock), the clock equal to the year's digits, day = month = hour ...: every field keeps its own place
+    for _ in range(250 if ctx.quick() else 6000):
+        y = rng.choice([rng.randint(1000, 2999), rng.randint(1000, 2999), 2020, 1999, 2000, rng.randint(1, 9999)])
+        m, d = rng.randint(1, 12), rng.randint(1, 28)
+        h, mi, s_ = rng.randint(0, 23), rng.randint(0, 59), rng.randint(0, 59)
+        kind = rng.randrange(6)
+        if kind == 0:
+            fl, digits = 4, "%04d" % y                      # fraction = the year
+        elif kind == 1:
+            fl, digits = 4, "%02d%02d" % (m, d)             # fraction = month and day
+        elif kind == 2:
+            fl, digits = 6, "%02d%02d%02d" % (h, mi, s_)    # fraction = the clock
+        elif kind == 3:
+            fl, digits = 2, "%02d" % d                      # fraction = the day
+        elif kind == 4:
+            h, mi = (y // 100) % 24, (y % 100) % 60         # clock = the year's digits
+            fl, digits = 4, "%04d" % y
+        else:
+            m = d = h = mi = s_ = rng.randint(1, 12)        # everything the same number
+            fl, digits = 2, "%02d" % d
+        us = int(digits.ljust(6, "0"))
+        dt = [y, m, d, h, mi, s_, us]
+        for fam in (3, 14):
+            sr, ht, hs, flw = render(fam, dt, fl, rng)
+            cases.append({"kind": "c01", "fam": fam, "dt": dt, "ht": ht, "hs": hs, "fl": flw, "s": sr, "kw": {"languages": ["en"]} if rng.random() < 0.7 else {},
+                          "settings": {"RELATIVE_BASE": [2021, 6, 15, 12, 0, 0, 0]}, "api": "ddp", "probe": True})
     # ---- the written wall clock is returned as written whatever TIMEZONE is: wall times that do not exist (spring-forward
     # gap) or exist twice (fold) in a DST zone are where a zone-aware round trip would move them
     import pytz
